@@ -200,7 +200,61 @@ fn err_atomicity_case(id: String, rt: &Route, good: &[u32], bad: &[u32]) -> Opti
         input: net_json(&rt.net, &rt.tp, &[good.to_vec(), bad.to_vec()]), oracle_fail: vec![], known, in_domain: true })
 }
 
+/// PathTpc::clear(offset_back) after the route has been supplied: the links wholly behind offset_back are dropped
+/// together with exactly their grades, curves, catenary sections and speed points (model PathGeom.clear).
+/// Oracle: what remains is what an independent cut of the original vectors at the new first link gives; the
+/// counts stay mutually consistent.
+fn clear_cases(r: &mut Rng, n: usize, sink: &mut Sink) {
+    let mut made = 0usize; let mut t = 0usize;
+    while made < n && t < 20 * n + 20 {
+        t += 1;
+        let rt = gen_route(r, &RouteOpts { max_links: 7, geom: true, malformed: false, plain_speeds: true });
+        if rt.path.len() < 2 { continue; }
+        let parts = if r.chance(0.5) { vec![rt.path.clone()] } else { let c = 1 + r.below(rt.path.len() - 1); vec![rt.path[..c].to_vec(), rt.path[c..].to_vec()] };
+        let p0 = match run_path(&rt.net, &rt.tp, &parts, false) { Ok(p) => p, Err(_) => continue };
+        let lps: Vec<f64> = p0.link_points().iter().map(|l| l.offset.value).collect();
+        let end = *lps.last().unwrap();
+        // where the rear of the train is: inside a link, exactly on a boundary, several links in, at the ends, outside
+        let x = match r.below(8) { 0 => 0.0, 1 => end, 2 => *r.pick(&lps), 3 => end + 10.0, 4 => -5.0, _ => r.range(0.0, end) };
+        let mut p = p0.clone();
+        let res = catch(std::panic::AssertUnwindSafe(|| p.clear(uc::M * x)));
+        let dropped = lps.iter().skip(1).filter(|o| **o < x).count().min(lps.len().saturating_sub(2));
+        let with_cats = p0.cat_power_limits().len();
+        let mut tags = rt.tags.clone(); tags.push(format!("links_dropped:{}", dropped.min(3))); tags.push(format!("catenary_sections:{}", if with_cats == 0 { "none" } else { "some" }));
+        tags.push(format!("offset_back:{}", if x < 0.0 { "before_path" } else if x > end { "beyond_path" } else if lps.contains(&x) { "on_boundary" } else { "inside_link" }));
+        let mut fails = vec![];
+        let outcome = match &res {
+            Ok(Ok(del)) => {
+                tags.push("result:ok".into());
+                // independent cut: everything that starts before the new first link point goes, nothing else
+                let first = p.link_points().first().map(|l| l.offset.value).unwrap_or(f64::NAN);
+                let keep_cats: Vec<(f64, f64, f64)> = p0.cat_power_limits().iter().filter(|c| c.offset_start.value >= first).map(|c| (c.offset_start.value, c.offset_end.value, c.power_limit.value)).collect();
+                let got_cats: Vec<(f64, f64, f64)> = p.cat_power_limits().iter().map(|c| (c.offset_start.value, c.offset_end.value, c.power_limit.value)).collect();
+                if keep_cats != got_cats { fails.push(format!("after clear({}) the catenary sections are not those of the remaining links: {} kept, {} expected (first remaining link starts at {})", x, got_cats.len(), keep_cats.len(), first)); }
+                let keep_gr: Vec<f64> = p0.grades().iter().map(|g| g.offset.value).filter(|o| *o >= first).collect();
+                let got_gr: Vec<f64> = p.grades().iter().map(|g| g.offset.value).collect();
+                if keep_gr != got_gr { fails.push(format!("after clear({}) the grade points are not those of the remaining links", x)); }
+                if !counts_ok(&p) { fails.push(format!("after clear({}) the index counts are no longer mutually consistent", x)); }
+                let csum: usize = p.link_points().iter().map(|l| l.cat_power_count).sum();
+                if csum != p.cat_power_limits().len() { fails.push(format!("after clear({}) the per-link catenary counts sum to {} but {} sections are stored", x, csum, p.cat_power_limits().len())); }
+                let mut o = outs_geom(&p); o.extend(outs_speed(&p));
+                o.z("del.grade_count", del.grade_count as i64); o.z("del.curve_count", del.curve_count as i64); o.z("del.cat_power_count", del.cat_power_count as i64);
+                Outcome::Ok(o)
+            }
+            Ok(Err(e)) => { let m = format!("{:#}", e); tags.push("result:err".into());
+                let c = if m.contains("first link point offset not greater") { 1501 } else if m.contains("greater than first link point offset") { 1502 } else { 999 };
+                Outcome::Err(c, m) }
+            Err(pm) => { tags.push("result:panic".into()); fails.push(format!("clear({}) panics: {}", x, pm.chars().take(120).collect::<String>())); Outcome::Panic(pm.clone()) }
+        };
+        let mut input = net_json(&rt.net, &rt.tp, &parts); input["clear_offset_back"] = fjson(x);
+        sink.put(Case { id: format!("clear/{}", t - 1), kind: "clear".into(), coq: format!("x_clear {} {} {} {}", coq_net(&rt.net), coq_tp(&rt.tp), coq_parts(&parts), cf(x)),
+            outcome, tags, input, oracle_fail: fails, known: vec![], in_domain: true });
+        made += 1;
+    }
+}
+
 pub fn run(seed: u64, n: usize, sink: &mut Sink) {
+    { let mut rc = Rng::new(seed ^ 0xC06_C1EA); clear_cases(&mut rc, (n / 8).max(20), sink); }
     let mut r = Rng::new(seed ^ 0xC06);
     let mut made = 0usize;
     let mut t = 0usize;
